@@ -331,7 +331,9 @@ def main():
             'arenas with more slots than the bound, allocation failure and usize overflow of len+1 are outside the claim',
             'ids of other arenas or of earlier generations of a live slot are outside the claim (documented as unchecked)',
             'generation encoding: live stamp s >= 0, freed stamp -s-1; INV is tied to it',
-        ],
+        ] + (['embedded jobs: the N modelled nodes are a link-closed component at symbolic positions of an arena of symbolic length <= 131072; the other slots are unconstrained (a read there sees an arbitrary node, a write there is reported as unsupported)'] if any(j.get('embedded') or j.get('func') == 'run_lookup_embedded_job' for j in jobs) else [])
+          + (["par_iter: rayon's slice iterator visits every element of the slice it is given exactly once (rayon's contract, not encoded)"] if any(j.get('kind') == 'c17_par_iter' for j in jobs) else [])
+          + (['single-tree family of the pretty printer: slots numbered in depth-first pre-order, all live, generation 0 (the printer follows links only); renderings restricted to `a` and `a\\nb`'] if any(j.get('family') == 'tree' for j in jobs) else []),
         'wall_s': round(time.time() - t0, 2),
         'violations': len(confirmed),
     }
